@@ -975,7 +975,7 @@ static void run_c05(void) {
     }
     /* reduced alphabet: boundary windows + 3-symbol byte product */
     u64vec R = {0};
-    alpha_boundary_windows(&R, vh_thorough ? 4 : 2);
+    alpha_boundary_windows(&R, vh_thorough ? 12 : 2);
     static const uint8_t sym[3] = {0x00, 0x80, 0xff};
     for (uint32_t i = 0; i < 6561; i++) {
         uint32_t t = i;
@@ -1285,6 +1285,26 @@ static void run_c12(void) {
             }
         }
         vh_flag(ext ? "triples_external" : "triples_tagged", complete);
+    }
+    if (vh_thorough && vh_section_begin("add/dense")) {
+        /* dense small scope: every stored value below 70000 (all 1-3 byte tagged classes and their boundaries) x every
+         * amount in [-2300, 2300] */
+        for (uint64_t sv = 0; sv < 70000; sv++) {
+            if (!vh_case()) {
+                continue;
+            }
+            if (vh_deadline_hit()) {
+                break;
+            }
+            for (int ext = 0; ext < 2; ext++) {
+                int w = ext ? ref_bytes_of(sv) : ref_tagged(sv, (uint8_t[16]){0});
+                for (int64_t a = -2300; a <= 2300; a += (sv % 7 == 0) ? 1 : 23) {
+                    c12_one(ext, sv, w, a, 0);
+                    c12_one(ext, sv, w, a, 1);
+                }
+            }
+            vh_count("cases", 1);
+        }
     }
     free(B.v);
 }
